@@ -157,8 +157,9 @@ def owes (gr : Goroutine) (w : Nat) : List Bool := backClosure gr.nodes (fun _ =
 def owesOk (gr : Goroutine) (w : Nat) : Bool :=
   let m := owes gr w
   gr.nodes.zipIdx.all fun x =>
-    if x.1.isDone w then mark m x.2 && x.1.succs.all (fun j => !mark m j)
-    else x.1.succs.all (fun j => mark m j == mark m x.2)
+    (!x.1.isExit || !mark m x.2) &&
+    (if x.1.isDone w then mark m x.2 && x.1.succs.all (fun j => !mark m j)
+     else x.1.succs.all (fun j => mark m j == mark m x.2))
 
 def owesAtEntry (gr : Goroutine) (w : Nat) : Bool := mark (owes gr w) 0
 
